@@ -30,6 +30,10 @@ package types
 //@ ensures err == nil <==> (len(s.ID) > 0 && s.Power > 0 && len(s.ID) <= MaxSignalIDCharacters)
 
 //@ keyfns VoteStoreKey SignalTotalPowerStoreKey ValidatorPriceListStoreKey PriceStoreKey SignalTotalPowerByPowerIndexKey
+// layout facts (trusted, key-layout): PriceStoreKey(id) = PriceStoreKeyPrefix || id - a key below the price prefix is a
+// price record key, and every price record key lies below the price prefix
+//@ axiom pricePrefix: forall q Bz :: hasprefix(q, PriceStoreKeyPrefix) ==> iskey(PriceStoreKey, q)
+//@ axiom priceBelowPrefix: forall id Str :: hasprefix(PriceStoreKey(id), PriceStoreKeyPrefix)
 
 // ---- C06: powers by status, weighted median ----------------------------------------------------------
 //@ spec stPower(s []ValidatorPriceInfo, st Int, lo int, hi int) Int = hi <= lo ? 0 : stPower(s, st, lo, hi-1) + (s[hi-1].SignalPriceStatus == st ? s[hi-1].Power : 0)
